@@ -176,9 +176,9 @@ func explore(t *testing.T, r *ev.Run, prop string, cs []cell, domains map[string
 
 func TestC02(t *testing.T) {
 	r := ev.Start("C02", "fault_enumeration")
-	r.Rule("for each cell (10 key states x {simple cache, no cache, lru cap-1 shared} x {encrypt}) a clean run records the trace of metastore and KMS calls of the operation under test; then EVERY call index gets every fault kind valid for it (Load/LoadLatest: error; Store: error-without-write, false-without-write, write-then-error, write-then-false; KMS: error) and, depth-first, every second fault at every later call of the faulted run (and, thorough tier, a seeded 35% sample of third faults). After each execution: record/err shape, IK row and SK row present in the raw store, a brand-new cache-less factory (crash model) decrypts the record, and once faults stop the next encrypt and the earlier records work on the same session. The enumeration is repeated (single faults, sampled pairs) over region-suffixed key ids and over both DynamoDB plug-ins on the semantic fake. Distinct+non-trivial: (cell, fault plan) pairs in which a fault actually fired.")
+	r.Rule("for each cell (10 key states x {simple cache, no cache, lru cap-1 shared} x {encrypt, decrypt}) a clean run records the trace of metastore and KMS calls of the operation under test; then EVERY call index gets every fault kind valid for it (Load/LoadLatest: error; Store: error-without-write, false-without-write, write-then-error, write-then-false; KMS: error) and, depth-first, every second fault at every later call of the faulted run (and, thorough tier, a seeded 35% sample of third faults). After each execution: record/err shape, IK row and SK row present in the raw store, a brand-new cache-less factory (crash model) decrypts the record, and once faults stop the next encrypt and the earlier records work on the same session. The enumeration is repeated (single faults, sampled pairs) over region-suffixed key ids and over both DynamoDB plug-ins on the semantic fake. Distinct+non-trivial: (cell, fault plan) pairs in which a fault actually fired.")
 	r.Assume("virtual clock (testing/synctest) fixes creation stamps", "a crash is modelled by discarding the factory and reading only the metastore and the KMS", "partial writes inside a real database are out of reach")
-	cs := cells(ev.Pick([]string{"simple", "nocache", "lru1-shared"}, []string{"simple", "nocache", "lru1-shared", "sesscache"}), ev.Pick([]string{"enc"}, []string{"enc", "dec"}))
+	cs := cells(ev.Pick([]string{"simple", "nocache", "lru1-shared"}, []string{"simple", "nocache", "lru1-shared", "sesscache"}), []string{"enc", "dec"})
 	explore(t, r, "C02", cs, map[string]bool{"ms": true, "kms": true, "aead": true}, ev.Pick(30, 100))
 	// the same enumeration end to end over region-suffixed key ids and over the DynamoDB plug-ins (single faults and
 	// a sample of pairs)
@@ -195,12 +195,13 @@ func TestC02(t *testing.T) {
 
 func TestC09(t *testing.T) {
 	r := ev.Start("C09", "fault_enumeration")
-	r.Rule("leak ledger over fault enumeration: same cells as C02 plus decrypt operations and a session-cache configuration; fault domains = metastore, KMS, AEAD call k fails, secret allocation k fails, secret access k refused / its release fails after the callback ran (every single position; pairs sampled in quick, all in thorough). The tracking SecretFactory accounts for every secret: the data key of an encrypt must be closed when the call returns; with caching disabled every secret created by the call must be closed at return; after session and factory Close every secret must have been closed (no leak) and never touched afterwards. Seeded histories (hist engine, OC09) and the C14 duplicate-key schedules run the same ledger. Distinct+non-trivial: (cell, fault plan) pairs in which a fault fired.")
+	r.Rule("leak ledger over fault enumeration: same cells as C02 plus decrypt operations and a session-cache configuration; fault domains = metastore, KMS, AEAD call k fails, secret allocation k fails, secret access k refused / its release fails after the callback ran (every single position; pairs sampled in quick, all in thorough). The tracking SecretFactory accounts for every secret: the data key of an encrypt must be closed when the call returns; with caching disabled every secret created by the call must be closed at return; after session and factory Close every secret must have been closed (no leak) and never touched afterwards. Seeded histories (hist engine, OC09), the C14 duplicate-key schedules and the gRPC sidecar's stream handler (streams ending normally or aborted after get-session / after traffic, with and without session caching) run the same ledger. Distinct+non-trivial: (cell, fault plan) pairs in which a fault fired.")
 	r.Assume("the ledger wraps the real memguard/protectedmemory factories through WithSecretFactory, so it sees every secret the SDK allocates")
 	cs := cells([]string{"simple", "nocache", "lru1-shared", "sesscache"}, []string{"enc", "dec"})
 	explore(t, r, "C09", cs, map[string]bool{"ms": true, "kms": true, "aead": true, "alloc": true, "access": true}, ev.Pick(12, 100))
 	schedulesForC09(t, r)
 	sessionCacheLedger(t, r)
+	sidecarLedger(t, r)
 	capacityScenarios(t, r)
 	r.Finish(t)
 }
